@@ -85,7 +85,7 @@ Definition print_line (fl : pflags) (nexprs : nat) (yaml_file : string) (doc_ind
   let b0 := if print_file || (print_expr && (print_path || print_value)) then ": " else "" in
   let b1 := if print_path && print_value then ": " else "" in
   let s1 := if print_file
-            then (if String.eqb yaml_file "-" then "STDIN" else yaml_file) ++ "/" ++ str_of_Z doc_index
+            then (if String.eqb (strip_py yaml_file) "-" then "STDIN" else yaml_file) ++ "/" ++ str_of_Z doc_index
             else "" in
   let s2 := if print_expr then "[" ++ fst e ++ "]" else "" in
   do p <- (if print_path
